@@ -90,6 +90,13 @@ class Collector:
         the path condition itself was solver-checked)"""
         from . import engine as E
 
+        if kind == "exception" and E.LAST_CTX is not None:
+            # a signature-mismatch TypeError raised by a call the HARNESS makes is not a verdict on the code
+            exc_txt = str((witness or {}).get("exc", "")) if isinstance(witness, dict) else ""
+            origin = getattr(E.LAST_CTX, "exc_origin", None)
+            if "TypeError" in exc_txt and any(t in exc_txt for t in E._SIG_MISMATCH) and origin and os.path.abspath(origin).startswith(os.path.dirname(os.path.dirname(os.path.abspath(__file__))) + os.sep):
+                self.note_inconclusive("harness/interface mismatch (the harness calls a function with arguments its signature no longer accepts): %s" % exc_txt[:200])
+                return
         self.obligations += 1
         if not model and E.LAST_CTX is not None:
             # a concrete point on the failing path, so that the replay runs the same path
